@@ -155,3 +155,40 @@ def rule_thin_wrappers(ctx, rule, relpath='rebound/tools.py'):
                            '%s() hands its arguments to the C function %s but also returns %s without calling it: for those arguments the Python front end no longer computes what the C front end computes (results differ in the last bits)'
                            % (fn.name, own, ast.unparse(v)[:60] if v is not None else 'None'))
     ctx.covered(rule, 'functions of %s that wrap the C function of the same name return only its result' % relpath, n, floor=3)
+
+
+INTERNAL_FLAG = r'^(recalculate_\w+|is_synchronized)$'
+
+
+def rule_internal_flags(ctx, rule):
+    """The integrators' bookkeeping members (is_synchronized, recalculate_*_this_timestep ...) are owned by the C code:
+    it raises them where the particles change and clears them where the internal coordinates are rebuilt. The Python layer
+    reads them and never writes them - a setter that raises them "to be safe" forces a rebuild of internal state that is
+    not lossless (JANUS re-derives its integer coordinates from the rounded floating point copy; an unsynchronised WHFast
+    state would be discarded). Expected count of writes: zero; the reads found are the positive control."""
+    import re
+    db = pyfront.pydb()
+    reads = writes = 0
+    for rel, tree in sorted(db.files.items()):
+        for node in ast.walk(tree):
+            targets = []
+            if isinstance(node, ast.Assign):
+                targets = node.targets
+            elif isinstance(node, (ast.AugAssign, ast.AnnAssign)):
+                targets = [node.target]
+            flat = []
+            for t in targets:
+                flat += list(t.elts) if isinstance(t, (ast.Tuple, ast.List)) else [t]
+            for t in flat:
+                if isinstance(t, ast.Attribute) and re.match(INTERNAL_FLAG, t.attr):
+                    writes += 1
+                    ctx.report(rule, '%s:%s' % (rel, t.attr), '%s:%d' % (rel, t.lineno),
+                               'the Python layer assigns %s: the flag belongs to the C integrator, which raises it exactly where the particles change; raising it from Python makes the next step rebuild the integrator\'s internal coordinates from the rounded particle data (not a no-op: JANUS loses its exact integer state, an unsynchronised state is dropped)' % ast.unparse(t))
+            if isinstance(node, ast.Call) and isinstance(node.func, ast.Name) and node.func.id == 'setattr' and len(node.args) >= 2 \
+                    and isinstance(node.args[1], ast.Constant) and isinstance(node.args[1].value, str) and re.match(INTERNAL_FLAG, node.args[1].value):
+                writes += 1
+                ctx.report(rule, '%s:%s' % (rel, node.args[1].value), '%s:%d' % (rel, node.lineno), 'the Python layer sets %s through setattr' % node.args[1].value)
+            if isinstance(node, ast.Attribute) and isinstance(node.ctx, ast.Load) and re.match(INTERNAL_FLAG, node.attr):
+                reads += 1
+    anchor(reads >= 3, 'reads of is_synchronized / recalculate_* in the Python layer (positive control, found %d)' % reads)
+    ctx.covered(rule, 'the Python layer reads the integrators\' bookkeeping flags (%d reads) and never writes them' % reads, reads + writes, floor=3)
